@@ -1,7 +1,6 @@
 package main
 
 import (
-	"os"
 	"bytes"
 	_ "embed"
 	"fmt"
@@ -10,6 +9,7 @@ import (
 	"go/parser"
 	"go/token"
 	"go/types"
+	"os"
 	"reflect"
 	"sort"
 	"strings"
@@ -749,7 +749,17 @@ func (nz *normaliser) block(n ast.Node) {
 
 func (nz *normaliser) list(list []ast.Stmt) []ast.Stmt {
 	var out []ast.Stmt
-	for _, st := range list {
+	for i := 0; i < len(list); i++ {
+		st := list[i]
+		if i+1 < len(list) {
+			if is, ok := list[i+1].(*ast.IfStmt); ok && is.Init == nil {
+				if rep := nz.assignThenIf(st, is, false); rep != nil {
+					out = append(out, rep...)
+					i++
+					continue
+				}
+			}
+		}
 		if rep := nz.stmt(st); rep != nil {
 			out = append(out, rep...)
 		} else {
@@ -792,10 +802,16 @@ func (nz *normaliser) stmt(st ast.Stmt) []ast.Stmt {
 		}
 	case *ast.IfStmt:
 		if s.Init != nil {
+			if rep := nz.assignThenIf(s.Init, s, true); rep != nil {
+				return rep
+			}
 			if rep := nz.stmt(s.Init); rep != nil {
 				s.Init = nil
 				return []ast.Stmt{&ast.BlockStmt{List: append(rep, s)}}
 			}
+		}
+		if rep := nz.predicateIf(s); rep != nil {
+			return rep
 		}
 		// if h(x) { / if !h(x) {  with a multi-statement predicate
 		cond := ast.Unparen(s.Cond)
@@ -852,6 +868,149 @@ func (nz *normaliser) stmt(st ast.Stmt) []ast.Stmt {
 		}
 	}
 	return nil
+}
+
+// predicateIf: `if h(x) { S } else { E }` / `if !h(x) {…}` where h is a multi-statement predicate: S and E are copied to the
+// return sites of h.
+func (nz *normaliser) predicateIf(s *ast.IfStmt) []ast.Stmt {
+	info := nz.pk.TypesInfo
+	if s.Init != nil {
+		return nil
+	}
+	cond := ast.Unparen(s.Cond)
+	neg := false
+	if u, ok := cond.(*ast.UnaryExpr); ok && u.Op == token.NOT {
+		cond, neg = ast.Unparen(u.X), true
+	}
+	call, ok := cond.(*ast.CallExpr)
+	if !ok {
+		return nil
+	}
+	h := nz.helperOf(info, call)
+	if h == nil || h.single != nil || h.nres != 1 {
+		return nil
+	}
+	if freeBreak(s.Body) || (s.Else != nil && freeBreak(s.Else)) || hasLabels(s) || countReturns(h.decl.Body) > 12 {
+		return nil
+	}
+	body := nz.expandBody(h, call, nil, false, &continuation{ifs: s, pred: true, neg: neg, nilIdx: -1})
+	if body == nil {
+		return nil
+	}
+	return []ast.Stmt{body}
+}
+
+// assignThenIf: `v, err := h(x)` (or `=`) directly followed by an if statement that tests the results; isInit: the
+// assignment is the init statement of that if.
+func (nz *normaliser) assignThenIf(st ast.Stmt, is *ast.IfStmt, isInit bool) []ast.Stmt {
+	info := nz.pk.TypesInfo
+	as, ok := st.(*ast.AssignStmt)
+	if !ok || len(as.Rhs) != 1 || (as.Tok != token.DEFINE && as.Tok != token.ASSIGN) {
+		return nil
+	}
+	call, ok := ast.Unparen(as.Rhs[0]).(*ast.CallExpr)
+	if !ok {
+		return nil
+	}
+	h := nz.helperOf(info, call)
+	if h == nil || h.single != nil || h.nres != len(as.Lhs) {
+		return nil
+	}
+	// the test must be about the assigned variables
+	names := map[string]int{}
+	for i, l := range as.Lhs {
+		id, ok := l.(*ast.Ident)
+		if !ok {
+			return nil
+		}
+		names[id.Name] = i
+	}
+	mentions := false
+	ast.Inspect(is.Cond, func(n ast.Node) bool {
+		if id, ok := n.(*ast.Ident); ok {
+			if _, ok := names[id.Name]; ok {
+				mentions = true
+			}
+		}
+		return true
+	})
+	if !mentions || freeBreak(is.Body) || (is.Else != nil && freeBreak(is.Else)) || hasLabels(is) || countReturns(h.decl.Body) > 12 {
+		return nil
+	}
+	// the copied test only pays off when its body leaves (otherwise the plain expansion is as good)
+	if !terminates(is.Body.List) {
+		return nil
+	}
+	k := &continuation{ifs: is, nilIdx: -1}
+	if x, y, op, ok := binaryCmp(is.Cond); ok && op == token.NEQ && isNilIdent(y) {
+		if id, ok := ast.Unparen(x).(*ast.Ident); ok {
+			if i, ok := names[id.Name]; ok {
+				k.nilIdx = i
+			}
+		}
+	}
+	if isInit {
+		is.Init = nil
+	}
+	var pre []ast.Stmt
+	if !nz.freeOK(h, h.decl.Type.Results, nz.pk, nz.file, call.Pos()) {
+		return nil
+	}
+	var rtypes []ast.Expr
+	for _, fld := range h.decl.Type.Results.List {
+		n := len(fld.Names)
+		if n == 0 {
+			n = 1
+		}
+		for j := 0; j < n; j++ {
+			rtypes = append(rtypes, fld.Type)
+		}
+	}
+	var lhs []ast.Expr
+	for i, l := range as.Lhs {
+		lhs = append(lhs, l)
+		if id := l.(*ast.Ident); as.Tok == token.DEFINE && id.Name != "_" && info.Defs[id] != nil {
+			pre = append(pre, &ast.DeclStmt{Decl: &ast.GenDecl{Tok: token.VAR, Specs: []ast.Spec{&ast.ValueSpec{
+				Names: []*ast.Ident{ast.NewIdent(id.Name)}, Type: cloneNode(rtypes[i])}}}})
+		}
+	}
+	body := nz.expandBody(h, call, lhs, false, k)
+	if body == nil {
+		if isInit {
+			is.Init = st
+		}
+		return nil
+	}
+	out := append(pre, body)
+	if isInit {
+		return []ast.Stmt{&ast.BlockStmt{List: out}}
+	}
+	return out
+}
+
+func hasLabels(n ast.Node) bool {
+	f := false
+	ast.Inspect(n, func(x ast.Node) bool {
+		if _, ok := x.(*ast.LabeledStmt); ok {
+			f = true
+		}
+		return !f
+	})
+	return f
+}
+
+func countReturns(n ast.Node) int {
+	c := 0
+	ast.Inspect(n, func(x ast.Node) bool {
+		switch x.(type) {
+		case *ast.FuncLit:
+			return false
+		case *ast.ReturnStmt:
+			c++
+		}
+		return true
+	})
+	return c
 }
 
 // wrapGoDefer: go h(a, b)  →  go func(p1 T1, p2 T2) { h(p1, p2) }(a, b); the inner call is expanded in the next round.
@@ -965,7 +1124,21 @@ func (nz *normaliser) expand(h *helper, call *ast.CallExpr, as *ast.AssignStmt, 
 }
 
 // expandBody builds the block that stands for the call.
-func (nz *normaliser) expandBody(h *helper, call *ast.CallExpr, lhs []ast.Expr, tail bool) ast.Stmt {
+// continuation: what the caller does with the result right after the call. Copying it to every return site of the
+// helper gives back the shape the code had before the helper was extracted (an early `return` where the helper says
+// `return false`) instead of a flag that is set in one place and tested in another.
+type continuation struct {
+	ifs    *ast.IfStmt // the test; its Cond is the call itself (pred) or mentions the assigned variables
+	pred   bool        // the call is the condition of ifs (possibly negated)
+	neg    bool
+	nilIdx int // !pred: ifs.Cond is `lhs[nilIdx] != nil` (-1: some other test of the results)
+}
+
+func (nz *normaliser) expandBody(h *helper, call *ast.CallExpr, lhs []ast.Expr, tail bool, ks ...*continuation) ast.Stmt {
+	var k *continuation
+	if len(ks) > 0 {
+		k = ks[0]
+	}
 	info := nz.pk.TypesInfo
 	hinfo := h.pk.TypesInfo
 	bs, ok := nz.bindings(h, info, call)
@@ -1130,10 +1303,52 @@ func (nz *normaliser) expandBody(h *helper, call *ast.CallExpr, lhs []ast.Expr, 
 		body.List = rewriteReturns(body.List, func(r *ast.ReturnStmt, last bool) []ast.Stmt {
 			var out []ast.Stmt
 			res := r.Results
-			if len(res) == 0 && len(named) > 0 && len(lhs) > 0 {
+			if len(res) == 0 && len(named) > 0 && (len(lhs) > 0 || (k != nil && k.pred)) {
 				for _, nm := range named {
 					res = append(res, ast.NewIdent(nm))
 				}
+			}
+			if k != nil && k.pred && len(res) == 1 {
+				// the returned value decides the caller's branch right here
+				taken, known := false, false
+				if id, ok := ast.Unparen(res[0]).(*ast.Ident); ok && (id.Name == "true" || id.Name == "false") {
+					if _, isConst := hinfo.Uses[identAt(h, r, id)].(*types.Const); isConst || true {
+						taken, known = (id.Name == "true") != k.neg, true
+					}
+				}
+				var thenS, elseS []ast.Stmt
+				thenS = cloneNode(k.ifs.Body).List
+				if k.ifs.Else != nil {
+					if eb, ok := k.ifs.Else.(*ast.BlockStmt); ok {
+						elseS = cloneNode(eb).List
+					} else {
+						elseS = []ast.Stmt{cloneNode(k.ifs.Else)}
+					}
+				}
+				switch {
+				case known && taken:
+					out = thenS
+				case known:
+					out = elseS
+				default:
+					var c ast.Expr = res[0]
+					if k.neg {
+						c = &ast.UnaryExpr{Op: token.NOT, X: &ast.ParenExpr{X: c}}
+					}
+					is := &ast.IfStmt{Cond: c, Body: &ast.BlockStmt{List: thenS}}
+					if elseS != nil {
+						is.Else = &ast.BlockStmt{List: elseS}
+					}
+					out = []ast.Stmt{is}
+				}
+				if !last && !terminates(out) {
+					needLabel = true
+					out = append(out, &ast.BranchStmt{Tok: token.BREAK, Label: ast.NewIdent(label)})
+				}
+				if len(out) == 0 {
+					out = append(out, &ast.EmptyStmt{})
+				}
+				return out
 			}
 			if len(res) > 0 && len(lhs) > 0 {
 				l2 := make([]ast.Expr, len(lhs))
@@ -1146,7 +1361,19 @@ func (nz *normaliser) expandBody(h *helper, call *ast.CallExpr, lhs []ast.Expr, 
 					out = append(out, &ast.AssignStmt{Lhs: []ast.Expr{ast.NewIdent("_")}, Tok: token.ASSIGN, Rhs: []ast.Expr{e}})
 				}
 			}
-			if !last {
+			if k != nil && !k.pred && len(res) == len(lhs) {
+				// the caller's test of the results, copied to this return site (dropped where the tested result is a literal nil)
+				skip := false
+				if k.nilIdx >= 0 && k.nilIdx < len(res) {
+					if id, ok := ast.Unparen(res[k.nilIdx]).(*ast.Ident); ok && id.Name == "nil" {
+						skip = true
+					}
+				}
+				if !skip {
+					out = append(out, cloneNode(k.ifs))
+				}
+			}
+			if !last && !terminates(out) {
 				needLabel = true
 				out = append(out, &ast.BranchStmt{Tok: token.BREAK, Label: ast.NewIdent(label)})
 			}
@@ -1155,6 +1382,7 @@ func (nz *normaliser) expandBody(h *helper, call *ast.CallExpr, lhs []ast.Expr, 
 			}
 			return out
 		}, true)
+		// a helper that can fall off its end (no results) continues with the caller's next statement: nothing to add
 	}
 	nz.changed[nz.file] = true
 	nz.notes = append(nz.notes, fmt.Sprintf("call of %s expanded in place", funcName(h.obj)))
@@ -1174,6 +1402,70 @@ func (nz *normaliser) expandBody(h *helper, call *ast.CallExpr, lhs []ast.Expr, 
 	}
 	out := append(temps, inner, &ast.AssignStmt{Lhs: finalLhs, Tok: token.ASSIGN, Rhs: rhs})
 	return &ast.BlockStmt{List: out}
+}
+
+// identAt exists only to keep the signature of the constant test readable: the identifier of a cloned return
+// statement has no type information, true/false are taken by name (shadowing them is excluded by freeOK).
+func identAt(h *helper, r *ast.ReturnStmt, id *ast.Ident) *ast.Ident { return id }
+
+// terminates: the statement list ends in a statement after which control does not continue with the next statement.
+func terminates(list []ast.Stmt) bool {
+	if len(list) == 0 {
+		return false
+	}
+	switch s := list[len(list)-1].(type) {
+	case *ast.ReturnStmt:
+		return true
+	case *ast.BranchStmt:
+		return s.Tok == token.CONTINUE || s.Tok == token.GOTO || (s.Tok == token.BREAK && s.Label != nil)
+	case *ast.ExprStmt:
+		if c, ok := s.X.(*ast.CallExpr); ok {
+			if id, ok := c.Fun.(*ast.Ident); ok && id.Name == "panic" {
+				return true
+			}
+		}
+	case *ast.BlockStmt:
+		return terminates(s.List)
+	case *ast.IfStmt:
+		if s.Else == nil {
+			return false
+		}
+		if eb, ok := s.Else.(*ast.BlockStmt); ok {
+			return terminates(s.Body.List) && terminates(eb.List)
+		}
+		return terminates(s.Body.List) && terminates([]ast.Stmt{s.Else})
+	}
+	return false
+}
+
+// freeBreak: the statements contain an unlabelled break that refers to a statement outside them (it would be
+// captured by the switch that stands for the helper's body).
+func freeBreak(n ast.Node) bool {
+	found := false
+	var walk func(n ast.Node, inBreakable bool)
+	walk = func(n ast.Node, inBreakable bool) {
+		ast.Inspect(n, func(x ast.Node) bool {
+			if x == nil || found {
+				return false
+			}
+			switch y := x.(type) {
+			case *ast.FuncLit:
+				return false
+			case *ast.ForStmt, *ast.RangeStmt, *ast.SwitchStmt, *ast.TypeSwitchStmt, *ast.SelectStmt:
+				if x != n {
+					walk(x, true)
+					return false
+				}
+			case *ast.BranchStmt:
+				if y.Tok == token.BREAK && y.Label == nil && !inBreakable {
+					found = true
+				}
+			}
+			return true
+		})
+	}
+	walk(n, false)
+	return found
 }
 
 // mentionsFreeName: the fragment uses name for something that is not declared inside it (renaming a parameter to it would capture).
@@ -1360,6 +1652,10 @@ func (nz *normaliser) reparseAndCheck() error {
 				return fmt.Errorf("re-parse %s: %v", pk.CompiledGoFiles[i], err)
 			}
 			pk.Syntax[i] = nf
+			if d := os.Getenv("MCPCHECK_NZ_DUMP"); d != "" {
+				os.MkdirAll(d, 0o755)
+				os.WriteFile(d+"/"+strings.ReplaceAll(strings.TrimPrefix(pk.CompiledGoFiles[i], p.Dir+"/"), "/", "__"), buf.Bytes(), 0o644)
+			}
 			p.noteNormalised(p.Fset.File(nf.Pos()), pk.CompiledGoFiles[i], buf.Bytes())
 		}
 	}
